@@ -223,8 +223,7 @@ impl State {
                 if let (Ok(t), Some(want)) = (&built, dec_tree(&case["tree"])) {
                     let got = normalise(t);
                     if !same_shape(&got, &want) {
-                        self.fail_key(&check_wf, format!("{src:?}: the shape of the tree differs from the specification's"), case,
-                                      observed.clone(), fk_of(case));
+                        self.fail("wfu_shape", format!("{src:?}: the shape of the tree differs from the specification's"), case, observed.clone());
                     }
                 }
             },
